@@ -64,7 +64,7 @@ func newConditionalMonitor(id string, request map[string]*ovsdb.MonitorRequest, 
 func newConditionalSinceMonitor(id string, request map[string]*ovsdb.MonitorRequest, client *rpc2.Client) *monitor {
 	m := &monitor{
 		id:      id,
-		kind:    monitorKindConditional,
+		kind:    monitorKindConditionalSince,
 		request: request,
 		client:  client,
 	}
@@ -116,7 +116,7 @@ func (m *monitor) Send3(id uuid.UUID, update database.Update) {
 	}
 	args := []interface{}{json.RawMessage([]byte(m.id)), id.String(), tu}
 	var reply interface{}
-	err := m.client.Call("update2", args, &reply)
+	err := m.client.Call("update3", args, &reply)
 	if err != nil {
 		log.Printf("client error handling update3 rpc: %v", err)
 	}
